@@ -36,8 +36,8 @@ fn fits<T: LInt>(v: i128) -> bool {
     let (mn, mx) = if T::SIGNED { (-(1i128 << (T::BITS - 1)), (1i128 << (T::BITS - 1)) - 1) } else { (0, (1i128 << T::BITS) - 1) };
     mn <= v && v <= mx
 }
-const FORMS: [&str; 12] = ["f32/fast", "f32/precise", "f64/fast", "f64/precise", "f32/fast/ref", "f64/precise/ref", "f32/fast/range",
-    "f64/precise/range", "f32/clamped", "f64/clamped_precise", "f64/clamped/range", "f32/clamped_precise/range"];
+const FORMS: [&str; 14] = ["f32/fast", "f32/precise", "f64/fast", "f64/precise", "f32/fast/ref", "f64/precise/ref", "f32/fast/range",
+    "f64/precise/range", "f32/clamped", "f64/clamped_precise", "f64/clamped/range", "f32/clamped_precise/range", "f64/fast/ref", "f32/precise/ref"];
 
 fn call<T: LInt>(form: usize, a: T, b: T, t32: f32, t64: f64) -> Option<i128> where for<'a> &'a T: Lerp<f32, Output = T> + Lerp<f64, Output = T> {
     guarded(|| match form {
@@ -52,7 +52,9 @@ fn call<T: LInt>(form: usize, a: T, b: T, t32: f32, t64: f64) -> Option<i128> wh
         8 => <T as Lerp<f32>>::lerp(a, b, t32),
         9 => <T as Lerp<f64>>::lerp_precise(a, b, t64),
         10 => <T as Lerp<f64>>::lerp_inclusive_range(a..=b, t64),
-        _ => <T as Lerp<f32>>::lerp_precise_inclusive_range(a..=b, t32),
+        11 => <T as Lerp<f32>>::lerp_precise_inclusive_range(a..=b, t32),
+        12 => <&T as Lerp<f64>>::lerp_unclamped(&a, &b, t64),
+        _ => <&T as Lerp<f32>>::lerp_unclamped_precise(&a, &b, t32),
     }.to_i128())
 }
 
@@ -68,8 +70,8 @@ fn run_row<T: LInt>(rep: &mut Report, row: &Row, signed: bool, shift: u32, strid
         let to8 = min8 + i as i64;
         let to = to8 as i128 * k;
         // the four basic implementations on every entry, the derived forms in rotation
-        for form in [0usize, 1, 2, 3, 4 + (i + rot) % 8] {
-            let clamped = form >= 8;
+        for form in [0usize, 1, 2, 3, 4 + (i + rot) % 10] {
+            let clamped = form >= 8 && form < 12;
             // unscaled: the table entry.  Scaled by k = 2^shift (8 | k): the exact real value, an integer
             // (law `IntLaw` of Law_Lerp: LerpInt(k x, k y, tn/8) = (k/8) (8 x + tn (y - x))).
             let tn_eff = if clamped { row.tn.clamp(0, 8) } else { row.tn };
@@ -82,7 +84,7 @@ fn run_row<T: LInt>(rep: &mut Report, row: &Row, signed: bool, shift: u32, strid
                 let wrapdiff = !fits::<T>(to - from);
                 rep.mismatch(json!({"ty": T::NAME, "form": FORMS[form], "from": from.to_string(), "to": to.to_string(), "t": format!("{}/8", row.tn),
                     "expected": expect.to_string(), "observed": got.map(|v| v.to_string()).unwrap_or("panic".into()), "shift": shift,
-                    "key": format!("lerp_int/{}/{}", if form % 2 == 0 && form < 8 || form == 8 || form == 10 { "fast" } else { "precise" },
+                    "key": format!("lerp_int/{}/{}", if form % 2 == 0 && form < 8 || form == 8 || form == 10 || form == 12 { "fast" } else { "precise" },
                                    if wrapdiff { "difference-overflows" } else { "in-range" })}));
             }
         }
